@@ -290,6 +290,9 @@ func (vc *FnVC) call(c ssa.CallInstruction, val *ssa.Call) {
 			vc.assumeWF(results[i].t, results[i].ty, vc.cur)
 		}
 	}
+	if val != nil {
+		vc.lockHavoc(val)
+	}
 	vc.cur = vc.applyCallGhostsX(name, args, results, vc.cur, calleeGhosts)
 	if val != nil {
 		switch nres {
